@@ -96,6 +96,23 @@ int main(void) {
                 if (r != (char *)gd.p) printf("BADRET\n"); else { puthex(stdout, gd.p, size); printf("\n"); }
             } else printf("%s\n", why());
             guard_free(gs); guard_free(gd);
+        } else if (!strcmp(op, "cpyov")) {
+            /* cpyov <delta> <size> <src>: qstrcpy(dst, size, src) with src and dst inside ONE buffer, dst = src - delta (the documented
+               "overlap between src and dst is allowed": shifting a string left or right in place).  Prints the string found at dst. */
+            long delta = atol(a[0]); size_t size = (size_t)atol(a[1]); size_t ns = unhex(a[2], t1);
+            size_t ad = delta < 0 ? (size_t)-delta : (size_t)delta, span = (ns + 1 > size ? ns + 1 : size);
+            guard_t g = guard_alloc(ad + span + 2, 0); memset(g.p, 0xAA, ad + span + 2);
+            unsigned char *lo = g.p + 1, *hi = g.p + 1 + ad;
+            unsigned char *src = delta >= 0 ? hi : lo, *dst = delta >= 0 ? lo : hi;
+            memcpy(src, t1, ns); src[ns] = 0;
+            if (QV_TRY(5)) {
+                char *r = qstrcpy((char *)dst, size, (char *)src);
+                QV_END;
+                if (r != (char *)dst) printf("BADRET\n");
+                else if (!memchr(dst, 0, size)) printf("UNTERMINATED\n");
+                else { puthex(stdout, dst, strlen((char *)dst)); printf("\n"); }
+            } else printf("%s\n", why());
+            guard_free(g);
         } else if (!strcmp(op, "between")) {
             size_t ns = unhex(a[0], t1), n1 = unhex(a[1], t2), n2 = unhex(a[2], t3);
             guard_t gs = gstr(t1, ns, 0), g1 = gstr(t2, n1, 0), g2 = gstr(t3, n2, 0);
